@@ -354,7 +354,10 @@ class Neighbor:
             return route
 
         # Resolve nexthop to concrete IP (immutable - returns new IP, doesn't mutate)
-        neighbor_self = self.ip_self(route.nlri.afi)
+        # an l2vpn route has no address of its own family: its next hop is an IPv4 address ("next-hop self" of a
+        # vpls was answered with TypeError for every session)
+        afi = route.nlri.afi if route.nlri.afi != AFI.l2vpn else AFI.ipv4
+        neighbor_self = self.ip_self(afi)
         resolved_ip = nexthop.resolve(neighbor_self)
         # nexthop.SELF is True and not resolved, so resolve() returns concrete IP
         assert resolved_ip is not None
